@@ -720,6 +720,19 @@ def gen_ppccw(rng):
     sc["arrS"][0][2] = samples(rng, 3, 9, 2) if rng.random() < 0.5 else []
     sc.pop("batchS", None)
     sc["T"] = rng.randint(20, 45)
+    if rng.random() < 0.5:
+        # three priority levels: a pre-empted lowest-priority customer is promoted while it waits and pre-empts in
+        # turn: a pre-emptor that carries a resume / restart obligation itself
+        sc["prio"] = [0, 1, 2]
+        nd["c"] = rng.choice([1, 2, 2])
+        nd["pp"] = rng.choice([1, 2])
+        cct = [[[] for _ in range(K)] for _ in range(K)]
+        cct[2][1] = samples(rng, 1, 4, 2)
+        sc["cct"] = cct
+        sc["arrS"][0][2] = samples(rng, 1, 3, 2)
+        sc["arrS"][0][1] = samples(rng, 2, 6, 2)
+        sc["arrS"][0][0] = samples(rng, 4, 9, 2) if rng.random() < 0.5 else []
+        sc["svcS"][0][2] = samples(rng, 4, 9, 2)
     return sc
 
 
